@@ -22,6 +22,8 @@ type FuncResult struct {
 	GenSecs float64
 	Arith   string
 	File    string
+
+	recTypes map[string]types.Type
 }
 
 // special: stdlib/dependency calls given engine-level semantics (no contract text needed).
@@ -45,12 +47,25 @@ func (fr *Frame) special(st *State, v ssa.Value, key string, callee *ssa.Functio
 }
 
 type VerifyOpts struct {
-	Safety bool
-	MaxInl int
+	Safety  bool
+	MaxInl  int
+	recSeed map[string]types.Type
 }
 
 // VerifyFunc generates the obligations of one function against its contract.
+// VerifyFunc generates the obligations of one function. Results recorded by callees ("option records") may be
+// named by clauses that are evaluated before the recording call is reached in generation order, so a function
+// that records anything is generated twice, the second time with the record types known from the start.
 func VerifyFunc(w *World, key string, opts VerifyOpts) (res *FuncResult) {
+	res = verifyFuncOnce(w, key, opts)
+	if len(res.recTypes) > 0 && opts.recSeed == nil {
+		opts.recSeed = res.recTypes
+		res = verifyFuncOnce(w, key, opts)
+	}
+	return res
+}
+
+func verifyFuncOnce(w *World, key string, opts VerifyOpts) (res *FuncResult) {
 	res = &FuncResult{Key: key}
 	t0 := time.Now()
 	defer func() {
@@ -81,6 +96,13 @@ func VerifyFunc(w *World, key string, opts VerifyOpts) (res *FuncResult) {
 	c := NewCtx(w, ct.Arith == "int")
 	res.Ctx = c
 	x := &Exec{c: c, w: w, target: key, maxInl: opts.MaxInl, safety: opts.Safety, gens: map[string][]genParent{}, genMemo: map[string]string{}, released: map[string]bool{}}
+	if opts.recSeed != nil {
+		x.recTypes = map[string]types.Type{}
+		for k, v := range opts.recSeed {
+			x.recTypes[k] = v
+		}
+	}
+	defer func() { res.recTypes = x.recTypes }()
 	if x.maxInl == 0 {
 		x.maxInl = 4
 	}
@@ -149,7 +171,7 @@ func VerifyFunc(w *World, key string, opts VerifyOpts) (res *FuncResult) {
 		c.oblige(fmt.Sprintf("%s#post:%s", key, nm), "post", key, "ensures "+cl.Text, fr.pos(fn.Pos()), ret.st.Reach, g, x.topReqs)
 	}
 	// frame
-	if ct.HasSpec && !ct.ModAll {
+	if ct.HasSpec && !ct.ModAll && len(ct.ModTypes) == 0 {
 		x.frameObligations(fr, ct, ret.st)
 	}
 	// lock balance
@@ -226,6 +248,7 @@ type RunOpts struct {
 	Retry    bool
 	Par      int
 	Only     *regexp.Regexp
+	Skip     func(name string) bool
 	KeepDir  string
 }
 
@@ -247,6 +270,10 @@ func RunObligations(results []*FuncResult, o RunOpts) {
 		}
 		for _, ob := range r.Ctx.Obls {
 			if o.Only != nil && !o.Only.MatchString(ob.Name) {
+				continue
+			}
+			if o.Skip != nil && o.Skip(ob.Name) {
+				ob.Result, ob.By = "not-run", "unclaimed"
 				continue
 			}
 			jobs = append(jobs, job{r.Ctx, ob})
@@ -315,6 +342,28 @@ func runObligation(c *Ctx, ob *Obligation, o RunOpts) {
 		}
 		if hasSat && hasUnsat {
 			ob.Result = "disagree"
+		}
+	}
+	if ob.Result == "unknown" && strings.Contains(q, "(assert (forall") {
+		// Quantified hypotheses make the solvers answer "unknown" instead of "sat". For a candidate
+		// counterexample only, the query is re-run without them; the model is then replayed on the real code,
+		// which is what decides whether it is reported as a failing input.
+		var b strings.Builder
+		for _, ln := range strings.Split(q, "\n") {
+			if !strings.HasPrefix(ln, "(assert (forall") {
+				b.WriteString(ln)
+				b.WriteString("\n")
+			}
+		}
+		rf := writeScratch(name+".relaxed.smt2", b.String())
+		for _, s := range []string{"z3", "z3-new"} {
+			r := runOne(s, rf, o.TimeoutS, o.Seed)
+			if r.Result == "sat" {
+				r.Solver = s + " (quantified hypotheses dropped: candidate model only)"
+				ob.Runs = append(ob.Runs, r)
+				ob.Result, ob.By = "sat", r.Solver
+				break
+			}
 		}
 	}
 	if ob.Result == "sat" {
